@@ -67,10 +67,18 @@ type Expect struct {
 	// Seen counts, per selection id, how often the selection was evaluated on an object
 	// (after @skip/@include and fragment applicability).
 	Seen map[int]int
+	// Undefined lists evaluations of a field selection on a node whose type does not define the field.
+	Undefined []UndefEval
 	// BadEnum: paths where the resolver returned a name the enum does not declare.
 	BadEnum map[string]BadEnumInfo
 	// Traits observed while executing (for non-triviality rules and class counters).
 	T Traits
+}
+
+// UndefEval is one evaluation of an undefined field.
+type UndefEval struct {
+	Node int
+	Sel  int
 }
 
 // BadEnumInfo describes an undeclared enum name returned by a resolver.
@@ -276,7 +284,9 @@ func (x *Exec) selSet(n *Node, sels []*Sel, out map[string]interface{}, path []i
 			}
 			fd := td.Field(s.Name)
 			if fd == nil {
-				continue // invalid documents are not executed by the reference
+				// invalid documents are not executed by the reference, but the evaluation is recorded
+				x.out.Undefined = append(x.out.Undefined, UndefEval{Node: n.ID, Sel: s.ID})
+				continue
 			}
 			p := append(append([]interface{}{}, path...), key)
 			x.out.Calls[faultKey(n.ID, s.Name)]++
